@@ -4,4 +4,6 @@ package main
 func genAll() {
 	genHashes()
 	genLocks()
+	genLockCalls()
+	genDerefs()
 }
